@@ -70,6 +70,20 @@ def rules_table_harness(name, abi, m):
                 if (r1.access_types & r2.access_types) and r1.get_relevant_attrs(defined) == r2.get_relevant_attrs(defined):
                     amb = True
         ctx.prove("retarget/rules/%s/never-ambiguous" % name, z3.BoolVal(not amb))
+        # the rules are a function of the module asked about, not of what was asked before: the same ABI object asked about its other
+        # kinds of module (PIE / non-PIE) and then about this one again gives each its own table
+        hist = []
+        for name2, abi2, m2 in abi_modules():
+            if abi2 is abi:
+                isa2, ff2, pie2 = name2.split("-")
+                r2 = sorted(((sorted(a.name for a in r.access_types), sorted(x.name for x in r.internal_attrs), sorted(x.name for x in r.external_attrs)) for r in abi._sym_expr_rules(m2)))
+                e2 = sorted(((sorted(a.name for a in acc), sorted(x.name for x in i), sorted(x.name for x in e)) for acc, i, e in PLATFORM.get((isa2, ff2, pie2 == "pie"), [])))
+                if r2 != e2:
+                    hist.append("%s: got %s expected %s" % (name2, r2, e2))
+        again = sorted(((sorted(a.name for a in r.access_types), sorted(x.name for x in r.internal_attrs), sorted(x.name for x in r.external_attrs)) for r in abi._sym_expr_rules(m)))
+        if again != exp:
+            hist.append("%s asked again: got %s" % (name, again))
+        ctx.prove("retarget/rules/%s/answer-depends-on-the-module-asked-about-not-on-earlier-requests" % name, z3.BoolVal(not hist), note="; ".join(hist)[:300])
     return harness
 
 
